@@ -102,15 +102,87 @@ def field_path(t):
 
 
 # ----------------------------------------------------------------------------- encoders
+def array_loops(fn):
+    """loops `for x in [e1, .., ek]` / `for x in [..].iter()`: {next-call block: (elements, switch block, exit successor)}"""
+    out = {}
+    for c in fn.calls():
+        if not c.callee.endswith('Iterator::next') or not c.args:
+            continue
+        src = strip(c.arg_term(0))
+        while src[0] == 'call' and src[1].endswith(('IntoIterator::into_iter', '::iter', 'Iterator::by_ref', 'Iterator::copied', 'Iterator::cloned')) and src[2]:
+            src = strip(src[2][0])
+        while src[0] == 'cast':
+            src = strip(src[2])
+        if src[0] != 'array' or not src[1]:
+            continue
+        sw = paths.switch_at(fn, c.target) if c.target is not None and c.target >= 0 else None
+        if sw is None:
+            continue
+        d = fn.term(sw['discr'])
+        if not (d[0] == 'discr' and strip(d[1])[0] == 'call' and strip(d[1])[3] == c.bb):
+            continue
+        exit_to = None
+        for x in fn.succ(c.target):
+            e = paths.edge_cond(fn, c.target, x)
+            listed = [int(v) for v, t in sw['targets']]
+            if e and e[0] == 'disc' and ((0 in e[2]) or (e[3] and 0 not in listed)):
+                exit_to = x
+        if exit_to is not None:
+            out[c.bb] = (list(src[1]), c.target, exit_to)
+    return out
+
+
+def rewrite(t, fn_):
+    """bottom-up term rewriting: fn_(subterm) returns a replacement or None"""
+    if not isinstance(t, tuple) or not t:
+        return t
+    r = fn_(t)
+    if r is not None:
+        return r
+    out = []
+    for x in t:
+        if isinstance(x, tuple):
+            out.append(rewrite(x, fn_))
+        elif isinstance(x, list):
+            out.append([rewrite(y, fn_) if isinstance(y, tuple) and y and isinstance(y[0], str) else
+                        ((y[0], rewrite(y[1], fn_)) if isinstance(y, tuple) and len(y) == 2 and isinstance(y[1], tuple) else y) for y in x])
+        else:
+            out.append(x)
+    return tuple(out)
+
+
+def _loop_element(t, loops):
+    """block of the array loop whose element `t` mentions, else None"""
+    for x in walk(t):
+        if x[0] == 'call' and x[1].endswith('Iterator::next') and isinstance(x[3], int) and x[3] in loops:
+            return x[3]
+    return None
+
+
+def _subst_element(t, nb, elem):
+    def f_(x):
+        if x[0] == 'field' and x[2] == '0' and strip(x[1])[0] == 'downcast' and strip(x[1])[2] == 'Some':
+            c = strip(strip(x[1])[1])
+            if c[0] == 'call' and c[1].endswith('Iterator::next') and c[3] == nb:
+                return elem
+        return None
+    return rewrite(t, f_)
+
+
 def enumerate_paths(fn, limit=400):
     """acyclic entry->return paths as lists of block indices; a path that takes contradictory arms of two matches on
     the same scrutinee (e.g. after a helper with its own `match item` was inlined) is infeasible and left out"""
     out = []
+    loops = array_loops(fn)
 
     def go(b, path, cons):
         if len(out) >= limit:
             return
         if b in path:
+            # the body of a loop over an array literal is walked once; coming back to its `next` leaves the loop
+            if b in loops and path.count(b) == 1:
+                elems, swb, exit_to = loops[b]
+                go(exit_to, path + [b, swb], cons)
             return
         path = path + [b]
         ss = fn.succ(b)
@@ -121,6 +193,13 @@ def enumerate_paths(fn, limit=400):
         sw = paths.switch_at(fn, b)
         for s in ss:
             c2 = cons
+            # a loop over a non-empty array literal runs its body before it can leave
+            skip = False
+            for h, (elems, swb, exit_to) in loops.items():
+                if b == swb and s == exit_to and elems and path.count(h) == 1:
+                    skip = True
+            if skip:
+                continue
             if sw is not None:
                 e = paths.edge_cond(fn, b, s)
                 if e and e[0] == 'disc':
@@ -309,12 +388,36 @@ def _owned_payload(val):
     return None
 
 
+INFEASIBLE = ('infeasible',)
+
+
+def _peel_ok(t):
+    """`(Ok(v) as Ok).0` / `Ok(v)?` -> v  (the result of a virtually inlined fallible helper, along one path)"""
+    while isinstance(t, tuple) and t:
+        t = strip(t)
+        if t[0] == 'field' and t[2] == '0' and strip(t[1])[0] == 'downcast' and strip(t[1])[2] in ('Ok', 'Some', 'Continue'):
+            inner = strip(strip(t[1])[1])
+            if inner[0] == 'call' and inner[1].endswith('Try::branch') and inner[2]:
+                inner = strip(inner[2][0])
+            if inner[0] == 'agg' and inner[2] in ('Ok', 'Some', 'Continue') and inner[3]:
+                t = inner[3][0][1]
+                continue
+            if (inner[0] == 'agg' and inner[2] in ('Err', 'None', 'Break')) or (inner[0] == 'call' and inner[1].endswith('FromResidual::from_residual')):
+                return INFEASIBLE   # the path took the error return of an inlined helper and then its caller's Ok arm
+        if t[0] == 'try' and strip(t[1])[0] == 'agg' and strip(t[1])[2] == 'Ok' and strip(t[1])[3]:
+            t = strip(t[1])[3][0][1]
+            continue
+        break
+    return t
+
+
 def encoder_rows(F, fn):
     """{variant-selector: [rows]} over the success paths of an encoder"""
     from absint import resolve_phis
     out = {}
     unknown = []
     multi = {l for l, ds in fn.defs().items() if len([d for d in ds if not d[-1]]) >= 2}
+    loops = array_loops(fn)
     for path in enumerate_paths(fn):
         if not is_success_path(fn, path):
             continue
@@ -323,7 +426,9 @@ def encoder_rows(F, fn):
             for l, t in fn.defs_in_block(b):
                 if l in multi:
                     env[l] = t
-        base = _owned_payload(resolve_phis(fn.local_term_in_env(0, env), env))
+        base = _peel_ok(_owned_payload(resolve_phis(fn.local_term_in_env(0, env), env)))
+        if base is INFEASIBLE:
+            continue
         fresh = base is not None and base[0] == 'call' and base[1].endswith(('Vec::<T>::new', 'Vec::<T>::with_capacity', 'Default::default'))
         rows = []
         if base is not None and not fresh:
@@ -343,7 +448,12 @@ def encoder_rows(F, fn):
                 else:
                     rows.append((field_path(v), 1, '-'))
             elif n.endswith('Vec::<T, A>::extend_from_slice') and on_output(c.arg_term(0)):
-                rows.extend(bytes_layout(F, fn, c.arg_term(1)))
+                nb = _loop_element(c.arg_term(1), loops)
+                if nb is not None:
+                    for el in loops[nb][0]:
+                        rows.extend(bytes_layout(F, fn, _subst_element(c.arg_term(1), nb, el)))
+                else:
+                    rows.extend(bytes_layout(F, fn, c.arg_term(1)))
             elif n.endswith('RoaringBitmap>::serialize_into') and on_output(c.arg_term(1)):
                 rows.append((field_path(c.arg_term(0)), 'roaring', 'portable'))
             elif n.endswith(('Vec::<T, A>::extend', 'Vec::<T, A>::insert', 'Vec::<T, A>::append', 'Vec::<T, A>::resize', 'Write::write_all', 'Vec::<T, A>::extend_from_within',
@@ -570,6 +680,11 @@ def _scalar(F, fn, t):
     if p[0] == 'field' and strip(p[1])[0] == 'call' and strip(p[1])[1].endswith('NodeId::from_bytes') and p[2] == '0':
         return (total(slice_offset(F, fn, strip(p[1])[2][0])), 'NodeId', 'nodeid')
     if p[0] == 'cindex':
+        base = strip(p[1])
+        if base[0] in ('array', 'repeat', 'var', 'phi') and not (base[0] in ('var', 'phi') and '[u8' in fn.local_ty(base[1])):
+            fill = array_fill_loop(F, fn)
+            if fill is not None and p[2] in fill:
+                return fill[p[2]]
         return (total(slice_offset(F, fn, p[1]) + [p[2]]), 1, '-')
     if p[0] == 'index':
         it = strip(fn.local_term(p[2]))
@@ -577,6 +692,71 @@ def _scalar(F, fn, t):
     if p[0] == 'const':
         return (('const',), 0, str(p[2]))
     return (('?' + show(p)[:50],), '?', '?')
+
+
+def array_fill_loop(F, fn):
+    """`for x in arr.iter_mut() { *x = read(cursor); cursor = &cursor[K..]; }`: {element index: (offset, width, endian)}"""
+    for c in fn.calls():
+        if not c.callee.endswith('Iterator::next') or not c.args:
+            continue
+        im = [x for x in walk(c.arg_term(0)) if x[0] == 'call' and x[1].endswith('<impl [T]>::iter_mut')]
+        if not im:
+            continue
+        imc = fn.call_at(im[0][3])
+        # the array behind the &mut [T] handed to iter_mut
+        n = None
+        a0 = imc.args[0]
+        if a0.get('k') in ('copy', 'move'):
+            l = a0['place']['l']
+            for _ in range(4):
+                ds = [d for d in fn.defs().get(l, []) if not d[-1]]
+                if len(ds) == 1 and ds[0][0] == 'assign' and ds[0][3]['k'] in ('ref', 'cast', 'use'):
+                    rv = ds[0][3]
+                    src = rv.get('place') or (rv.get('a') or rv.get('o') or {}).get('place')
+                    if not src:
+                        break
+                    l = src['l']
+                    m = re.match(r'\[\w+; (\d+)\]$', fn.local_ty(l))
+                    if m:
+                        n = int(m.group(1))
+                        break
+                else:
+                    break
+        if n is None:
+            continue
+        # `*elem = read(cursor)` inside the loop
+        for bi, blk in enumerate(fn.blocks):
+            if blk['cleanup']:
+                continue
+            for st in blk['stmts']:
+                pl = st['place']
+                from_next = paths.mentions_call(fn.local_term(pl['l']), c.bb) or any(
+                    d[0] == 'assign' and d[3]['k'] == 'use' and d[3]['o'].get('k') in ('copy', 'move') and d[3]['o']['place']['l'] == c.dest['l']
+                    for d in fn.defs().get(pl['l'], []))
+                if len(pl['p']) == 1 and pl['p'][0]['k'] == 'deref' and from_next and st['rv']['k'] == 'use':
+                    val = producer(fn.term(st['rv']['o']))
+                    if val[0] != 'call' or not val[2]:
+                        continue
+                    last = val[1].rsplit('::', 1)[1]
+                    if not (val[1].startswith('byteorder::ByteOrder::') and last in READS):
+                        continue
+                    rc = fn.call_at(val[3])
+                    en = 'BE' if 'BigEndian' in rc.resolved else ('LE' if 'LittleEndian' in rc.resolved else '?')
+                    cur = strip(val[2][0])
+                    if cur[0] != 'phi' or len(cur[2]) != 2:
+                        continue
+                    step = init = None
+                    for alt in cur[2]:
+                        a = strip(alt)
+                        if a[0] == 'call' and a[1].endswith('ops::Index::index') and strip(a[2][1])[0] == 'agg' and strip(a[2][1])[1].endswith('RangeFrom') \
+                                and strip(a[2][0])[0] in ('phi', 'var') and strip(a[2][0])[1] == cur[1]:
+                            step = sizeof_value(F, fn, dict(strip(a[2][1])[3])['start'])
+                        else:
+                            init = alt
+                    if isinstance(step, int) and init is not None:
+                        base = slice_offset(F, fn, init)
+                        return {i: (total(base + [i * step]), READS[last], en) for i in range(n)}
+    return None
 
 
 def tag_of_return(fn, b):
